@@ -44,11 +44,16 @@ def lam_strata(tier):
         for D in dims:
             for N in ns[D]:
                 out.append(dict(id="%s-D%d-N%d" % (f, D, N), fam=f, D=D, N=N))
+            # "every grid size": N drawn from a wide range (forcing masks compare wavenumbers with ==)
+            out.append(dict(id="%s-D%d-anyN" % (f, D), fam=f, D=D, N=None))
     return out
 
 
 def lam_strategy(stratum, tier):
     f, D, N = stratum["fam"], stratum["D"], stratum["N"]
+    if N is None:
+        hi = {2: 128, 3: 26}[D] if tier != "quick" else {2: 110, 3: 20}[D]
+        return st.one_of(st.integers(5, hi), st.sampled_from([49, 98, 103, 107] if D == 2 else [9, 12, 16])).flatmap(lambda N_: lam_strategy(dict(stratum, N=N_), tier))
     return st.fixed_dictionaries(
         dict(
             fam=st.just(f),
